@@ -1,10 +1,80 @@
 import SkaModel.Core.Proto
+import SkaModel.Core.Pool
+import SkaModel.Core.Loop
 
-/-! Driver commands for the `Pool` model family. One self-contained case per line. -/
+/-! Driver commands for the pool skeleton (C01, C02, C14). One self-contained case per line. -/
 
 namespace Ska.Drv.Pool
 open Ska Ska.Proto
 
-def handlers : List (String × P String) := []
+def showErr : SelErr → String
+  | .batchSize => "err batch-size"
+  | .method => "err method"
+  | .infinite => "err infinite"
+  | .mass => "err mass"
+  | .oracle => "err oracle"
+
+/-- `some <k> i1..ik` | `none` -/
+def mapping : P (Option (List Nat)) := do
+  match (← tok) with
+  | "some" => let l ← listOf nat; pure (some l)
+  | "none" => pure none
+  | _ => failure
+
+def selKind : P SelKind := do
+  match (← tok) with
+  | "max" => pure .max
+  | "mass" => pure .mass
+  | "number" => pure .number
+  | _ => failure
+
+/-- `poolA <n> <mapping> <uc…> <b:int> <max|proportional> <k> noises(k × len full)… <choice…>`
+→ `ok <clipped b> | picks | rows | full`  -/
+def cmdPoolA : P String := do
+  let n ← nat
+  let mp ← mapping
+  let uc ← listOf optFloat
+  let b ← int
+  let ms ← tok
+  let full := fullUtilities n mp uc
+  let k ← nat
+  let noises ← many (many float full.length) k
+  let choice ← listOf nat
+  if b < 1 then pure (showErr .batchSize) else
+  let m ← (match ms with | "max" => pure Method.max | "proportional" => pure Method.proportional | _ => failure : P Method)
+  match poolQueryA (β := Float) Float.isInf n mp uc b.toNat m noises choice with
+  | .error e => pure (showErr e ++ " | full " ++ showOptFloats full)
+  | .ok rs =>
+    pure ("ok " ++ toString (min b.toNat (nCandOf mp uc)) ++ " | " ++ showNats (rs.map (·.1)) ++ " | "
+      ++ " ; ".intercalate (rs.map (fun r => showOptFloats r.2)) ++ " | full " ++ showOptFloats full)
+
+/-- `validpool <kind> <n> <cand…> <b> <q…> <k> rows(k × n)…` → `batch=<0|1> utils=<0|1>` -/
+def cmdValidPool : P String := do
+  let kind ← selKind
+  let n ← nat
+  let cand ← listOf nat
+  let b ← nat
+  let q ← listOf nat
+  let k ← nat
+  let rows ← many (many optFloat n) k
+  let vb := validBatchB cand b q
+  let vu := validUtilsB kind n cand q rows
+  pure s!"batch={if vb then 1 else 0} utils={if vu then 1 else 0}"
+
+/-- `altrace <b> <y mask…> <t> <batch_1…> … <batch_t…>` → `accept=<0|1>` -/
+def cmdAlTrace : P String := do
+  let b ← nat
+  let y ← listOf bool
+  let t ← nat
+  let tr ← many (listOf nat) t
+  pure s!"accept={if alTraceAccepts b y tr then 1 else 0}"
+
+/-- `unlabeled <y mask…>` → indices -/
+def cmdUnlabeled : P String := do
+  let y ← listOf bool
+  pure (showNats (unlabeledIdx y))
+
+def handlers : List (String × P String) :=
+  [ ("poolA", cmdPoolA), ("validpool", cmdValidPool), ("altrace", cmdAlTrace), ("unlabeled", cmdUnlabeled) ]
 
 end Ska.Drv.Pool
